@@ -414,14 +414,15 @@ class C10(Prop):
 
 class C07(Prop):
     id = "C07"; module = "Adsb.Theorems.C07"; design_ref = "5/C07"
+    modules = ["Adsb.Theorems.C07", "Adsb.Theorems.C07b"]
     deps = ["layout:struct AirborneVelocity", "layout:enum AirborneVelocitySubType", "layout:struct GroundSpeedDecoding", "layout:struct AirspeedDecoding",
             "shape:AirborneVelocity::calculate", "layout:enum Sign", "layout:enum VerticalRateSource"]
     tol = 2e-6
     rule = ("direction bits x boundary-biased 10-bit components (0,1,2,3,511,512,1022,1023 + stratified; thorough: all 2^22), all 2^11 vertical-rate codes, "
             "all 8 subtypes, all airspeed/heading/NACv/difference codes; field sweeps of every type-19 field; heading/speed compared numerically "
             "(atan2/hypot in double precision, 2e-6 relative), vertical rate and none/some exactly")
-    claim = "components (raw-1)*k signed, vertical rate (raw-1)*64 signed, none iff not ground-speed subtype or a zero field (theorems); track/speed = atan2/hypot of the exact components (numeric tie)"
-    note = "atan2 and hypot are external functions: the model returns the exact integer components, the driver evaluates libc atan2/sqrt; agreement with the Rust libm port is checked numerically"
+    claim = "components (raw-1)*k signed, vertical rate (raw-1)*64 signed, none iff not ground-speed subtype or a zero field (theorems); track/speed (model generic in the number type) over the reals (Theorems/C07b): speed is the Euclidean norm, track in [0,360), east = speed*sin(track), north = speed*cos(track), and the track is the only such angle"
+    note = "the f64/f32 evaluation of atan2 and hypot is outside the kernel: the driver evaluates the same generic definition over Float with libc atan2/sqrt; agreement with the Rust libm port is checked numerically"
     def ops(self, rng, tier):
         ops = []
         edge = [0, 1, 2, 3, 4, 100, 511, 512, 1000, 1021, 1022, 1023]
@@ -546,9 +547,10 @@ class C12(TrackerProp):
 
 class C13(TrackerProp):
     id = "C13"; module = "Adsb.Theorems.C13"; design_ref = "5/C13"
+    modules = ["Adsb.Theorems.C13", "Adsb.Theorems.C13b"]
     rule = C12.rule + "; receivers at 6 sites incl. high latitude and the antimeridian, ranges 150-1000 km"
-    claim = "publish iff both reports stored, pairing in range and within the jump limit; otherwise the record is cleared; invariant: published position = pairing of stored reports, distance = receiver distance, for every reachable state"
-    note = "the haversine formula and the CPR pairing are parameters of the theorems; the concrete functions are tied numerically (reference great-circle distance and exact-arithmetic CPR decode in tools/cprspec.py)"
+    claim = "publish iff both reports stored, pairing in range and within the jump limit; otherwise the record is cleared; invariant: published position = pairing of stored reports, distance = receiver distance, for every reachable state; the haversine formula of the tracker (model generic in the number type) equals radius x central angle of the two unit vectors over the reals (Theorems/C13b: haversine_is_great_circle, symmetry, range [0, 6371*pi], 0 to itself, antipodes)"
+    note = "the theorems about histories take the distance and the CPR pairing as parameters; the distance formula itself is proved over the reals (Mathlib), its f64 evaluation and the CPR pairing are tied numerically (reference great-circle distance and exact-arithmetic CPR decode in tools/cprspec.py)"
     with_time = False
     def pick(self, allpos, recs, order): return tuple((k, recs[k]["e"], recs[k]["o"], recs[k]["pos"], recs[k]["kd"]) for k in order)
     def project(self, op, line):
